@@ -62,6 +62,25 @@ CONTEXTS = {
 }
 THOROUGH_ONLY = {"class-body"}
 
+# depth 2 (thorough): an expression context around the call, inside each statement context
+EXPR_WRAPS = {
+    "in-call-arg": "wrap({C})",
+    "in-listcomp": "[{C} for i2 in [0]]",
+    "in-listcomp-iter": "[j2 for j2 in {C}]",
+    "in-ifexp": "({C} if tr('t2', True) else 0)",
+    "in-or": "(tr('l2', 0) or {C})",
+    "in-lambda": "(lambda: {C})()",
+    "in-fstring": "f'[{{{C}}}]'",
+    "in-subscript": "({C},)[0]",
+    "in-walrus": "(w2 := {C})",
+    "in-tuple": "(tr('u', 1), {C})",
+    "in-dictcomp": "{{i2: {C} for i2 in [0]}}",
+    "in-genexp": "tuple({C} for i2 in [0])",
+}
+DEPTH2_SPECIALS = ("recurse", "call_next")
+DEPTH2_KINDS = ("function", "method", "closure")
+DEPTH2_FORMS = ("one", "kw", "star", "nested-second")
+
 # call forms; {S} is the special name; R* arguments lead to leaves, N* arguments make call_next meaningful
 FORMS_R = {
     "one": "{S}(tr('a', 's'))",
@@ -125,6 +144,9 @@ def make_source(context, form, special, kind):
     S = SPECIALS[special]
     forms = FORMS_N if special == "call_next" else FORMS_R
     C = forms[form].format(S=S)
+    if "+" in context:
+        context, wrap = context.split("+")
+        C = EXPR_WRAPS[wrap].replace("{C}", C)
     body = CONTEXTS[context].replace("{C}", C).replace("{FAIL}", FAIL_R.format(S=S))
     body = body.replace("{{", "{").replace("}}", "}")
     if kind == "function":
@@ -272,7 +294,7 @@ def observe(side, get_fn, kind, context, fname):
     obs = {}
     try:
         fn = get_fn()
-        if context == "generator":
+        if context.split("+")[0] == "generator":
             g = fn(7)
             obs["lazy"] = list(side.trlog)  # nothing may run before the first next()
             res = list(g)
@@ -327,6 +349,11 @@ def run_case(context, form, special, kind, acc):
     try:
         compile(src, fname, "exec")
     except SyntaxError as e:
+        if "+" in context:
+            # some depth-2 combinations are not Python (a walrus in a comprehension iterable, braces in an f-string)
+            if acc is not None:
+                acc.count("skipped_not_python")
+            return found
         raise core.HarnessError(f"generated source is not valid Python ({context}/{form}/{special}/{kind}): {e}")
     rside, rcalls, rtested = build_ref(src, fname, kind, special)
     try:
@@ -380,6 +407,13 @@ def cases(tier):
             for special in SPECIALS:
                 for kind in KINDS:
                     yield context, form, special, kind
+    if tier != "quick":
+        for context in CONTEXTS:
+            for wrap in EXPR_WRAPS:
+                for form in DEPTH2_FORMS:
+                    for special in DEPTH2_SPECIALS:
+                        for kind in DEPTH2_KINDS:
+                            yield context + "+" + wrap, form, special, kind
 
 
 def shard(shard, nshards, tier, seed):
@@ -388,7 +422,8 @@ def shard(shard, nshards, tier, seed):
         if idx % nshards != shard:
             continue
         run_case(context, form, special, kind, acc)
-        acc.h("contexts", context)
+        acc.h("contexts", context.split("+")[0])
+        acc.h("depth", 2 if "+" in context else 1)
         if idx % (nshards * 17) == shard:
             acc.sample({"context": context, "form": form, "special": special, "kind": kind, "source": make_source(context, form, special, kind)[-400:]})
         if idx % 40 == 0:
@@ -411,7 +446,7 @@ def main(tier):
         rule=f"bodies from the grammar context[call]: {len(CONTEXTS)} expression / statement contexts (return, assignment, argument, every "
              "comprehension position, lambda, nested def and their defaults, conditional and boolean operators incl. short-circuit, "
              "f-string, subscript / attribute base, walrus, try/finally, try/except around a failing call, generator, for, with, "
-             "decorator, raise after the call; thorough: class body) x 11 call forms (positional, two, keyword, starred, "
+             "decorator, raise after the call; thorough: class body, and depth 2 = each of 12 expression contexts around the call inside every statement context, for recurse / call_next on three kinds) x 11 call forms (positional, two, keyword, starred, "
              "double-starred, nested in the first / a later / a keyword argument / both) x 4 special names (recurse, call_next, the function's own name, a renamed import) x 5 "
              "function kinds (module-level, closure instantiated twice, positional defaults, keyword-only defaults, method with "
              "self); each built twice from one source text; compared: acceptance, result, exception, order and multiplicity of "
